@@ -41,16 +41,46 @@ static void sweep_case(long item)
         nontrivial(hash_u64((uint64_t)(k * 64 + p * 4 + var), 9));
         ENG_POLICY_OVERRIDE = NULL;
 }
+/* sweep 2: tables around 2^8 commands (counters and indices that walk the whole table per typed character must not wrap) */
+static const int BIG[] = { 254, 255, 256, 257, 300, 319 };
+static void sweep_big(long item)
+{
+        int n = BIG[item % 6]; bool shared = (item / 6) & 1;
+        snprintf(mode, sizeof mode, "sweep: table of %d commands", n);
+        w_begin();
+        int done = 0; char nm[16];
+        for (int g = 0; g < 3; g++) {
+                int cnt = g == 2 ? n - done : n / 3;
+                struct cat_command *a = w_group((size_t)cnt, false);
+                for (int j = 0; j < cnt; j++, done++) { snprintf(nm, sizeof nm, "+K%03d", done); a[j].name = xstr(nm); a[j].run = h_run; a[j].read = h_read; if (done % 7 == 0) a[j].disable = true; }
+        }
+        size_t cap = w_min_cap() + 24;
+        w_buffers(shared ? cap * 2 : cap, shared, 24);
+        w_init((int)(item & 1));
+        in_reset(); snprintf(nm, sizeof nm, "AT+K%03d\n", n - 1); in_puts(nm); in_puts("AT+K00\nAT+K001?\n");
+        sch_eager(&RS); sch_eager(&WS);
+        eng_monitors_install();
+        ENG_POLICY_OVERRIDE = dataok_policy; EP.p_handler_trigger = 0;
+        eng_trigger(1, CAT_CMD_TYPE_READ);
+        long B = eng_progress_bound(), used = 0; bool quiet = false;
+        for (; used < B; used++) { cat_status s = svc(); eng_after_service(s); if (case_failed()) break; if (s == CAT_STATUS_OK && INPOS >= INLEN) { quiet = true; break; } }
+        if (!quiet && !case_failed()) viol("C15", "no-quiescence", "table of %d commands: no OK within %ld calls (%zu of %zu input bytes consumed)", n, B, INPOS, INLEN);
+        if (quiet && RESULT_CODES != 3) viol("C01", "final-count", "%ld result codes for 3 lines", RESULT_CODES);
+        nontrivial(hash_u64((uint64_t)item, 255));
+        CNT("big_table_cases");
+        ENG_POLICY_OVERRIDE = NULL;
+}
 struct case_budget chk_budget(const char *tier)
 {
-        struct case_budget b = { n_sweep(), strcmp(tier, "thorough") == 0 ? 4000000 : 120000 };
+        struct case_budget b = { n_sweep() + 12, strcmp(tier, "thorough") == 0 ? 4000000 : 120000 };
         return b;
 }
 void chk_run_case(uint64_t seed, long c, bool is_sweep)
 {
         (void)seed;
         eng_default_profile();
-        if (is_sweep) { sweep_case(c); return; }
+        if (is_sweep) { if (c < n_sweep()) sweep_case(c); else sweep_big(c - n_sweep()); return; }
+        if (chance(4)) EP.max_cmds = 300;
         snprintf(mode, sizeof mode, "random history");
         EP.p_event_step = 40 + rn(200); EP.p_handler_trigger = 25; EP.p_hold = 10; EP.p_backpressure = 60; EP.p_cut = 60;
         eng_gen_table();
